@@ -33,7 +33,11 @@ def norm(s):
 
 
 def plan(tier, seed):
-    return _strict.plan_bases(tier, quick_msgs_cfgs=2, thorough_cfgs=10, struct_per_type=(1, 8))
+    shards = _strict.plan_bases(tier, quick_msgs_cfgs=2, thorough_cfgs=10, struct_per_type=(1, 8))
+    # event streams printed one after the other in one process, chosen so that consecutive streams differ in exactly the
+    # things a printer could carry over: response-code formats, attribute words of different widths, buffers and warnings
+    shards.append(dict(name="sequences", kind="sequences", rounds=2 if tier == "quick" else 12))
+    return shards
 
 
 def row(tname, path, hexs, val):
@@ -219,7 +223,36 @@ def check(case, rec, modes=(True, False)):
         check_events_printer(t, case, mode, rec)
 
 
+RC_CODES = (0x100, 0x1C4, 0x101, 0x9A2, 0xB03, 0x500, 0x98E, 0x084, 0x2C3, 0x12F, 0xD21, 0x000)
+
+
+def run_sequences(shard, rec):
+    rng = random.Random(f"{shard.get('seed', 0)}:C14:sequences")
+    P = layout.pinned()["types"]
+    attr_types = sorted(n for n, d in P.items() if d["kind"] == "prim" and "bits" in d)
+    for r in range(shard["rounds"]):
+        codes = list(RC_CODES)
+        rng.shuffle(codes)
+        seq = []
+        for c in codes + codes[::-1]:
+            data = b"\x80\x01\x00\x00\x00\x0a" + c.to_bytes(4, "big")
+            seq.append(cases.Case("Response", data, cc=0x144, origin="rc-sequence", sig=("rcseq", c)))
+        words = [rng.randrange(256) for _ in range(6)] + [0x04, 0x40, 0x60]
+        for v in words:
+            order = list(attr_types)
+            rng.shuffle(order)
+            for tn in order:
+                w = P[tn]["width"]
+                seq.append(cases.Case(tn, v.to_bytes(w, "big"), origin="attr-sequence", sig=("attrseq", tn, v)))
+        for case in seq:
+            check(case, rec, modes=(True,))
+            rec.count("sequence_streams")
+
+
 def run_shard(shard, rec):
+    if shard.get("kind") == "sequences":
+        run_sequences(shard, rec)
+        return
     rng = random.Random(f"{shard.get('seed', 0)}:C14:{shard['name']}")
     thorough = shard.get("tier") == "thorough"
     for base in _strict.base_cases(shard, rng):
@@ -240,7 +273,7 @@ def run_shard(shard, rec):
 
 def finish(m, tier):
     inc = []
-    for k in ("pretty_rows", "warning_rows", "bit_rows", "buffer_rows", "event_lines"):
+    for k in ("pretty_rows", "warning_rows", "bit_rows", "buffer_rows", "event_lines", "sequence_streams"):
         if not m["counters"].get(k):
             inc.append(f"no {k}")
     return dict(inconclusive=inc)
